@@ -188,17 +188,6 @@ theorem mapBounds_expand_mirror {n : Nat} {bs bs' : List BoF} (h : MirrorList n 
 
 /-! ## the record -/
 
-/-- two requests that differ in their bounds lists only -/
-structure SameButBofs (cfg cfg' : Cfg) : Prop extends SameTokens cfg cfg' where
-  replace : cfg'.replace = cfg.replace
-  complement : cfg'.complement = cfg.complement
-  join : cfg'.join = cfg.join
-  json : cfg'.json = cfg.json
-  fallback : cfg'.fallback = cfg.fallback
-
-theorem sameButBofs_with (cfg : Cfg) (bs' : List BoF) : SameButBofs cfg { cfg with bofs := bs' } :=
-  ⟨⟨rfl, rfl, rfl, rfl, rfl, rfl, rfl⟩, rfl, rfl, rfl, rfl, rfl⟩
-
 theorem complemented_mirror {cfg cfg' : Cfg} (h : SameButBofs cfg cfg') {n : Nat}
     (hm : MirrorList n cfg.bofs cfg'.bofs) :
     MirrorList n (complemented cfg n) (complemented cfg' n) := by
@@ -284,11 +273,6 @@ theorem specBytes_mirror {cfg cfg' : Cfg} (h : SameButBofs cfg cfg') (data : Byt
       emit_mirror _ tok _ _ hm]
 
 /-! ## the runs of the engines -/
-
-/-- the specification's view of two option sets that differ in their bounds only -/
-theorem sameButBofs_cfgOf (o : Opt) (bl' : UserBoundsList) :
-    SameButBofs (cfgOf o) (cfgOf { o with bounds := bl' }) :=
-  ⟨⟨rfl, rfl, rfl, rfl, rfl, rfl, rfl⟩, rfl, rfl, rfl, rfl, rfl⟩
 
 /-- **C09, general field engine, the run.**  Two invocations that differ only in their bounds
     lists, the second obtained from the first by rewriting any of its negative indexes `-k` into
